@@ -105,6 +105,12 @@ fn bases(strtab_base: u64) -> Vec<Base> {
             bi::SMBIOS | bi::NETWORK => {
                 push(kind, 0, bi::sample(kind, 1, 5), vec![]);
                 push(kind, 1, bi::sample(kind, 1, 0), vec![]);
+                if kind == bi::SMBIOS {
+                    // tables that are entry-point structures: contents that state their own length
+                    for (i, img) in bi::smbios_entry_points().into_iter().enumerate() {
+                        push(kind, 2 + i, img, vec![]);
+                    }
+                }
             }
             bi::ACPI2 => push(kind, 0, bi::sample(kind, 1, 0), vec![Field { name: "length", off: 28, width: 4, alpha: range_edge(0, 60) }]),
             bi::EFI_MMAP => {
